@@ -253,6 +253,10 @@ func newCmap4(cm tables.CmapSubtable4) (cmap4, error) {
 		if entry.start > entry.end { // invalid segment, which maps no rune
 			continue
 		}
+		if L := len(out); L != 0 && entry.start <= out[L-1].end {
+			// segments must be sorted and disjoint, as assumed by the binary search in Lookup
+			continue
+		}
 		idRangeOffset := int(cm.IdRangeOffsets[i])
 
 		// some fonts use 0xFFFF for idRangeOff for the last segment
@@ -366,7 +370,15 @@ func newCmap6(cm tables.CmapSubtable6) cmap6or10 {
 }
 
 func newCmap10(cm tables.CmapSubtable10) cmap6or10 {
-	return cmap6or10{entries: cm.GlyphIdArray, firstCode: rune(cm.StartCharCode)}
+	const maxRune = 0x10FFFF
+	if cm.StartCharCode > maxRune { // no valid rune is mapped
+		return cmap6or10{}
+	}
+	entries := cm.GlyphIdArray
+	if max := maxRune - int(cm.StartCharCode) + 1; len(entries) > max {
+		entries = entries[:max] // ignore the codes beyond the Unicode range
+	}
+	return cmap6or10{entries: entries, firstCode: rune(cm.StartCharCode)}
 }
 
 type cmap6Or10Iter struct {
